@@ -15,7 +15,7 @@ BOUNDS = dict(quick='n <= 6 points (2 concrete spacing patterns), all heights sy
 ASSUMPTIONS = ['exact real arithmetic (T1)', 'x strictly increasing, knees interior, t > 0',
                'sub-ranges entering a Pearson correlation are not constant in y (otherwise NumPy yields nan and the ranking is undefined): such paths are counted as "domain" and excluded',
                'the order NumPy gives to tied ranking scores is unspecified; it is modelled as a free choice']
-CONFIG = dict(quick=dict(budget_s=175, case_wall_s=120, max_paths=8000, nra_at_decide=False), thorough=dict(budget_s=900, case_wall_s=600, max_paths=200000, nra_at_decide=False))
+CONFIG = dict(quick=dict(budget_s=175, case_wall_s=120, max_paths=8000, nra_at_decide=False), thorough=dict(max_cases=1800, budget_s=900, case_wall_s=600, max_paths=200000, nra_at_decide=False))
 LINK = ['single_linkage', 'complete_linkage', 'centroid_linkage', 'average_linkage']
 MODES = ['left', 'linear', 'right', 'hull', 'corners']
 
